@@ -111,6 +111,20 @@ def cases(tier, seed):
                 q = mkq(kind, sels, c, ("x", "y"))
                 for d in DOMS[:2]:
                     out.append((q, d, "an"))
+    # one condition object at several positions of the query (c = x.a == 0; or_(and_(c, p), and_(not_(c), q)))
+    for cc in (ATOMS2[0], ATOMS2[3], ATOMS2[4], ATOMS2[6], ATOMS2[8]):
+        for cp, cq in ((ATOMS2[2], ATOMS2[7]), (ATOMS2[7], ATOMS2[1]), (ATOMS2[1], ATOMS2[2])):
+            if cc in (cp, cq):
+                continue
+            for c in (("or", ("and", cc, cp), ("and", ("not", cc), cq)), ("and", cc, ("and", cp, cc)),
+                      ("or", ("and", cp, cc), ("and", ("not", cc), cq)), ("and", ("and", cc, cp), cc)):
+                # the fragment: or_ only between operands over the same variables (else-if form)
+                if any(s_[0] == "or" and fol.cond_vars(s_[1]) != fol.cond_vars(s_[2]) for s_ in fol.subconds(c)):
+                    continue
+                for kind, sels in SELS2[:3]:
+                    q = mkq(kind, sels, c, ("x", "y"))
+                    for d in DOMS:
+                        out.append((q, d, "shared"))
     memo = {}
     for n in range(1, BOUNDS[tier]["leaves_3vars"] + 1):
         for c in nnf_conds(n, ATOMS3, memo):
@@ -189,7 +203,7 @@ def run_case(case):
                 pass
             built = eqlfront.build(q, world, shared_vars=first.vars)
         else:
-            built = eqlfront.build(q, world)
+            built = eqlfront.build(q, world, share_terms=(mode == "shared"))
         got_rows = built.rows()
     except Exception as e:
         res.failures.append(Failure("crash", f"{label}: {type(e).__name__}: {e}"))
